@@ -45,6 +45,7 @@ type PoolObs struct {
 	HighWater    int      `json:"high_water"`
 	Points       []QPoint `json:"points,omitempty"`
 	WaitEarly    []string `json:"wait_early,omitempty"`    // Wait had returned while tasks were parked / unfinished
+	SubmitOverrun []string `json:"submit_overrun,omitempty"` // Submit returned although workers and queue were full
 	UnderUse     []string `json:"under_use,omitempty"`     // fewer parked than min(workers, unfinished)
 	OverLimit    []string `json:"over_limit,omitempty"`    // more parked than workers
 	Invisible    []string `json:"invisible,omitempty"`     // effect of a task not visible after Wait
@@ -159,6 +160,7 @@ func runPoolCase(cs *PoolCase) *PoolObs {
 			subs = 1
 		}
 		var waitReturned, lateWaitReturned atomic.Bool
+		var accepted atomic.Int64
 		var waitSeq int64
 		done := make(chan struct{})
 		go func() { // waiter: joins the submitters, then Wait (sync.WaitGroup's contract: no Add-from-zero concurrent with Wait)
@@ -170,6 +172,7 @@ func runPoolCase(cs *PoolCase) *PoolObs {
 					defer swg.Done()
 					for id := s; id < pre; id += subs {
 						pool.Submit(task(id))
+						accepted.Add(1)
 					}
 				}(s)
 			}
@@ -275,6 +278,10 @@ func runPoolCase(cs *PoolCase) *PoolObs {
 					}
 				} else if waitReturned.Load() && unfinished > 0 {
 					o.WaitEarly = append(o.WaitEarly, fmt.Sprintf("round %d: Wait had returned with %d tasks unfinished (%d parked)", round, unfinished, len(keys)))
+				}
+				// Submit blocks while the queue (2*workers) is full: never more than workers + 2*workers tasks accepted and unfinished
+				if acc := int(accepted.Load()) - int(completed.Load()-completedAtRoundStart); acc > 3*we {
+					o.SubmitOverrun = append(o.SubmitOverrun, fmt.Sprintf("round %d point %d: %d Submit calls have returned for tasks that are not finished, but %d workers plus a queue of %d can hold only %d — Submit did not block on the full queue", round, step, acc, we, 2*we, 3*we))
 				}
 				want := minInt(we, unfinished)
 				if cs.LateTasks > 0 {
@@ -394,6 +401,10 @@ func judgePool(cs *PoolCase, o *PoolObs) []scen.Finding {
 	}
 	for _, s := range o.WaitEarly {
 		add("C12", "wait-early:"+w, "%s", s)
+		break
+	}
+	for _, s := range o.SubmitOverrun {
+		add("C12", "submit-did-not-block:"+w, "%s", s)
 		break
 	}
 	for _, s := range o.LateTasks {
@@ -553,6 +564,24 @@ func runC08(c *Cfg) {
 			}
 		}
 	}
+	// batches much larger than the pool (>= 32*c items): the limit stays fully usable from the first to the last item
+	for _, cc := range []int{2, 3} {
+		n := 32*cc + 5
+		it := make([]ItemScript, n)
+		for j := range it {
+			it[j].K = 1
+		}
+		cases = append(cases, &BatchCase{Family: "limit-large-batch", N: n, C: cc, Budget: 1, Items: it, Shape: "results", Build: "builder", ExecStyle: "any", Gated: true, Policy: []string{"last", "random"}[cc%2], PSeed: uint64(cc)})
+	}
+	// a positive concurrency given to the constructor, then 0 through the builder method: sequential, in item order
+	for _, n := range []int{3, 9} {
+		it := make([]ItemScript, n)
+		for j := range it {
+			it[j].K = 1
+		}
+		cases = append(cases, &BatchCase{Family: "limit-option-then-builder", N: n, C: 0, Budget: 1, Items: it, Shape: "results", Build: "option-then-builder", ExecStyle: "result", Gated: true, Policy: "first"})
+		cases = append(cases, &BatchCase{Family: "limit-option-then-builder", N: n, C: 2, Budget: 1, Items: it, Shape: "results", Build: "option-then-builder", ExecStyle: "result", Gated: true, Policy: "random", PSeed: uint64(n)})
+	}
 	// long sequential batches: strictly one at a time, in item order
 	for _, n := range []int{41, 64} {
 		it := make([]ItemScript, n)
@@ -654,7 +683,7 @@ func runC08(c *Cfg) {
 		}
 	}
 	for _, w := range []int{-1, 1, 2, 3} {
-		pcs = append(pcs, &PoolCase{Family: "pool-limit-dwell", Workers: w, Tasks: 3*effWorkers(w) + 4, Submitters: 1 + (w+1)%2, Rounds: 1, Gated: true, Policy: "first", DwellMs: 150})
+		pcs = append(pcs, &PoolCase{Family: "pool-limit-dwell", Workers: w, Tasks: 3*effWorkers(w) + 4, Submitters: 1 + (w+1)%2, Rounds: 1, Gated: true, Policy: "first", DwellMs: 350})
 	}
 	poolLoop(c, len(pcs), func(i int) *PoolCase { return pcs[i] }, func(i int, cs *PoolCase, o *PoolObs) {
 		r.Count("pool.runs", 1)
@@ -694,6 +723,10 @@ func runC12(c *Cfg) {
 	// idle periods between rounds (time-triggered behaviour such as idle timers gets its chance)
 	for _, w := range []int{1, 2, 3, 6} {
 		pcs = append(pcs, &PoolCase{Family: "idle-between-rounds", Workers: w, Tasks: w + 1, Submitters: 1, Rounds: 2, Gated: true, Policy: "first", IdleMs: 650})
+	}
+	// saturated pool left alone for 350 ms: Submit keeps blocking (a grace period after which it "helps out" would show)
+	for _, w := range []int{1, 2, 4} {
+		pcs = append(pcs, &PoolCase{Family: "saturated-dwell", Workers: w, Tasks: 3*w + 3, Submitters: 1, Rounds: 1, Gated: true, Policy: "first", DwellMs: 350})
 	}
 	// a second goroutine submits while the first is inside Wait; its tasks complete first (out-of-order completion)
 	for w := 2; w <= 8; w++ {
